@@ -18,7 +18,7 @@ RULE = ('scenario connect -> shell -> stat -> list -> pull -> push (+ variants w
 ASSUMPTIONS = ['after a surfaced transport error only recovery is required, not continued use of the broken session',
                'a transport failure closes nothing by itself: the harness calls close() and connect() as a user would']
 EXPECT_PROBES = {'all': ['fault_timeout', 'fault_reset', 'fault_eof', 'fault_empty', 'fault_wtimeout', 'fault_epipe', 'fault_wdelivered', 'short_writes', 'c12_fault_in_connect', 'c12_fault_in_push', 'c12_op_survived_fault', 'c12_close_failed', 'stale_cnxn_mid_session']}
-OWN = ('wrong-result', 'lock-held', 'recovery-failed', 'recovery-wrong-result', 'hang', 'no-termination', 'push-content', 'stale-state')
+OWN = ('wrong-result', 'push-missing', 'push-incomplete', 'lock-held', 'recovery-failed', 'recovery-wrong-result', 'hang', 'no-termination', 'push-content', 'stale-state')
 KINDS = ['timeout', 'reset', 'eof', 'empty', 'wtimeout', 'epipe', 'wdelivered']
 KMAX = 120
 
@@ -69,7 +69,12 @@ def generate(seed, tier):
         op['rt'] = 2.0
         op['tt'] = g.pick([1.0, 2.0])
         if op['op'] == 'push':
-            op['src'] = g.pick(['bytesio', 'file'])
+            op['src'] = g.pick(['bytesio', 'file', 'dir'])
+            if op['src'] == 'dir':
+                # a directory of 2-4 files: a fault part-way must not end in a normal return with files missing
+                op.pop('content', None)
+                op['files'] = [{'name': 'f%d' % j, 'content': {'seed': g.int(0, 999), 'size': g.int(0, 600), 'alpha': 'bin'}} for j in range(g.int(2, 4))]
+                d['cmds']['mkdir ' + op['path']] = {'content': {'size': 0}, 'cuts': []}
     for plan in d['cut_plans']:
         if plan['policy'] in ('one', 'tiny'):
             plan['policy'] = 'random'
@@ -147,7 +152,7 @@ def evaluate(case, tapes=None):
         # phase 1: up to and including the faulted op; it may raise anything or return the truth
         vi = victim if victim is not None else len(recs)
         p1 = O.check_session(run, s2, relaxed_from=vi)
-        probs += [p for p in p1 if p[0] in ('wrong-result', 'push-content')]
+        probs += [p for p in p1 if p[0] in ('wrong-result', 'push-content', 'push-missing', 'push-incomplete')]
         if victim is not None:
             vrec = recs[victim]
             if vrec['ok']:
